@@ -170,7 +170,9 @@ def canary(ctx, trace):
                 picks['str'] = (s, l, 'relstr')
             if e.get('op') == 'route' and e['call'] == 'GetTag' and 'route' not in picks:
                 picks['route'] = (s, l, 'route')
-            if e.get('op') == 'client' and e['sent'] and 'client' not in picks:
+            # (a request is only constrained when the arguments were valid: pick one whose path is the plain concatenation)
+            if e.get('op') == 'client' and e['sent'] and 'client' not in picks and \
+                    e['path'] == [47, 118, 50, 47] + e['repo'] + [47, 109, 97, 110, 105, 102, 101, 115, 116, 115, 47] + e['ref']:
                 picks['client'] = (s, l, 'client')
         if len(picks) == 4:
             break
@@ -211,7 +213,7 @@ def run(ctx):
     #    event set in the quick tier), then seeded-random and mutated strings
     vh = vlib.build_harness(ctx)
     trace = os.path.join(ctx.sub('traces'), 'ref.ndjson')
-    st = run_ref(ctx, vh, trace, cases=cf, n=1500 if quick else 60000, seed=ctx.seed, level=2, lightmax=8)
+    st = run_ref(ctx, vh, trace, cases=cf, n=1500 if quick else 40000, seed=ctx.seed, level=2, lightmax=8)
     nstr, nev = st['strings'], st['events']
     traces = [trace]
     count_ops(ctx, trace)
